@@ -112,7 +112,9 @@ pub fn run(ctx: &Ctx) -> ! {
         "a deletion (target_remove) is compiled from a query, not an assignment: it may be covered by either list".into(),
         "apart from the fault dimension, reach is that of the generator's small path vocabulary; this is not a program fuzzer".into(),
     ];
-    let verdict = rep.finish(ctx);
+    let mut verdict = rep.finish(ctx);
+    // a worker that could not run (spawn failure, wall-clock limit, garbled output) is a harness error, not a pass
+    verdict.harness_errors += ev.worker_errors as u32;
     ev.write(ctx, "exploration", verdict.violations, &verdict.known_seen);
     exit_with(&verdict)
 }
